@@ -126,3 +126,21 @@ pub const fn pm_trim_end_matches(mut p: Parser<'_>) -> Parser<'_> {
     parser_method! {p, trim_end_matches; "ab" | "a" | "b\u{e9}" };
     p
 }
+
+pub const fn cm_eq_slices(a: &[u8], b: &[u8]) -> bool { konst::const_eq!(a, b) }
+pub const fn cm_cmp_u32(a: u32, b: u32) -> core::cmp::Ordering { konst::const_cmp!(a, b) }
+pub const fn cm_eq_str(a: &str, b: &str) -> bool { konst::const_eq!(a, b) }
+pub const fn cm_eq_opt(a: Option<u8>, b: Option<u8>) -> bool { konst::const_eq_for!(option; a, b) }
+pub const fn cm_cmp_slice_for(a: &[u8], b: &[u8]) -> core::cmp::Ordering { konst::const_cmp_for!(slice; a, b) }
+pub const fn rb_try_rebind(mut p: Parser<'_>) -> Result<(u8, Parser<'_>), konst::parsing::ParseError<'_>> {
+    let x;
+    konst::try_rebind! {(x, p) = p.parse_u8()}
+    Ok((x, p))
+}
+pub const fn rb_rebind_if_ok(mut p: Parser<'_>) -> (u8, Parser<'_>) {
+    let mut x = 0u8;
+    konst::rebind_if_ok! {(x, p) = p.parse_u8()}
+    (x, p)
+}
+pub const fn it_split_count(s: &str) -> usize { iter::eval!(konst::string::split(s, ","), count()) }
+pub const fn it_chars_count(s: &str) -> usize { iter::eval!(konst::string::chars(s), filter(|c| *c == 'a'), count()) }
